@@ -393,6 +393,11 @@ pub fn check_case(c: &StreamCase, prop: &str, rep: &mut Report, trace: &mut Opti
 
 /// For a valid full stream: every sampled prefix, allow_incomplete on.
 pub fn check_prefixes(full: &[u8], opt: Opt, prop: &str, rng: &mut StdRng, nprefix: usize, rep: &mut Report, trace: &mut Option<Vec<String>>) {
+    check_prefixes_at(full, opt, prop, rng, nprefix, &[], rep, trace)
+}
+
+/// `targeted`: (prefix length, cuts) pairs tried in addition to the sampled ones
+pub fn check_prefixes_at(full: &[u8], opt: Opt, prop: &str, rng: &mut StdRng, nprefix: usize, targeted: &[(usize, Vec<usize>)], rep: &mut Report, trace: &mut Option<Vec<String>>) {
     let e = expect_lzma(full, opt, None);
     if e.v != Exp::Ok {
         return;
@@ -406,14 +411,27 @@ pub fn check_prefixes(full: &[u8], opt: Opt, prop: &str, rng: &mut StdRng, npref
     for c in &r.costs {
         co.push(co.last().unwrap() + c.out as usize);
     }
-    let mut plens: Vec<usize> = (0..nprefix).map(|_| rng.gen_range(0..=full.len())).collect();
-    plens.extend_from_slice(&[0, 1, hl - 1, hl, hl + 4, hl + 5, hl + 6, full.len().saturating_sub(1), full.len()]);
-    for plen in plens {
+    let mut plens: Vec<(usize, Option<Vec<usize>>)> = (0..nprefix).map(|_| (rng.gen_range(0..=full.len()), None)).collect();
+    if nprefix > 0 {
+        for x in [0, 1, hl - 1, hl, hl + 4, hl + 5, hl + 6, full.len().saturating_sub(1), full.len()] {
+            plens.push((x, None));
+        }
+    }
+    for (pl, cu) in targeted {
+        plens.push((*pl, Some(cu.clone())));
+    }
+    for (plen, fixed_cuts) in plens {
         let plen = plen.min(full.len());
         let data = &full[..plen];
-        let k = rng.gen_range(0..5);
-        let mut cuts: Vec<usize> = (0..k).map(|_| rng.gen_range(0..=plen)).collect();
-        cuts.sort();
+        let cuts: Vec<usize> = match fixed_cuts {
+            Some(c) => c,
+            None => {
+                let k = rng.gen_range(0..5);
+                let mut c: Vec<usize> = (0..k).map(|_| rng.gen_range(0..=plen)).collect();
+                c.sort();
+                c
+            }
+        };
         let c = StreamCase {
             data_hex: hex(data),
             opt,
@@ -901,6 +919,34 @@ pub fn run_c15(prop: &str, seed: u64, nstreams: usize, nsyms: usize, trace_path:
         if rep.samples.len() < 3 {
             rep.sample(json!({"origin": g.origin, "bytes": g.data.len(), "prefixes": 21, "allow_incomplete": true}));
         }
+    }
+    // worst-case symbols: prefixes ending inside / just after the most expensive symbols we can build, with a cut
+    // that leaves 1..cost-1 of their bytes parked in the partial input buffer
+    {
+        let mut none = None;
+        let (g, cost) = gen_expensive_eos(&mut rng, 170, false);
+        let n = g.data.len();
+        let start = n - cost as usize;
+        let mut t: Vec<(usize, Vec<usize>)> = vec![];
+        for plen in (start + 1)..=n {
+            for k in [1usize, 3, 9, 10, 11, 12, 19] {
+                if plen > k {
+                    t.push((plen, vec![plen - k]));
+                }
+            }
+        }
+        check_prefixes_at(&g.data, g.opt, prop, &mut rng, 0, &t, rep, &mut none);
+        let (g, cost, ti) = gen_expensive_match(&mut rng, 170);
+        let end = g.bounds[ti];
+        let start = end - cost as usize;
+        let mut t: Vec<(usize, Vec<usize>)> = vec![];
+        for plen in [start + 1, start + 5, start + 10, start + 11, end - 1, end, end + 1, end + 7] {
+            for k in [1usize, 9, 10, 11, 14, 19] {
+                t.push((plen, vec![plen - k]));
+            }
+        }
+        check_prefixes_at(&g.data, g.opt, prop, &mut rng, 0, &t, rep, &mut none);
+        rep.add("expensive_symbol_bytes", cost as u64);
     }
     if let (Some(p), Some(t)) = (trace_path, trace) {
         std::fs::write(p, t.join("\n") + "\n").expect("write trace");
